@@ -6,6 +6,8 @@ import (
 	"io"
 	"strings"
 
+	"golang.org/x/crypto/openpgp"
+
 	"pault.ag/go/debian/changelog"
 	"pault.ag/go/debian/control"
 )
@@ -61,10 +63,20 @@ func execLong(vec J, out *Writer) {
 	switch vec["k"].(string) {
 	case "read_long":
 		doc := expandSegs(vec["doc"])
-		rec := J{"ev": "read_long", "in": vec, "len": len(doc)}
+		rec := J{"ev": "read_long", "in": vec, "len": len(doc), "signer": "none"}
+		var ring *openpgp.EntityList
+		if sk, ok := vec["sign"]; ok {
+			// the document clearsigned by that key, read with a keyring that holds it
+			doc = clearSign(key(sk.(string)), doc)
+			el := keyring([]interface{}{sk})
+			ring = &el
+			if r, err := control.NewParagraphReader(bytes.NewReader(doc), ring); err == nil {
+				rec["signer"] = keyName(r.Signer())
+			}
+		}
 		// path 1: Next until EOF
 		func() {
-			r, err := control.NewParagraphReader(bytes.NewReader(doc), nil)
+			r, err := control.NewParagraphReader(bytes.NewReader(doc), ring)
 			if err != nil {
 				rec["next"] = J{"ok": false, "paras": []interface{}{}}
 				return
@@ -85,7 +97,7 @@ func execLong(vec J, out *Writer) {
 		}()
 		// path 2: All
 		func() {
-			r, err := control.NewParagraphReader(bytes.NewReader(doc), nil)
+			r, err := control.NewParagraphReader(bytes.NewReader(doc), ring)
 			if err != nil {
 				rec["all"] = J{"ok": false, "paras": []interface{}{}}
 				return
@@ -96,7 +108,15 @@ func execLong(vec J, out *Writer) {
 		// path 3: Unmarshal into a slice of structs embedding Paragraph, through a caller-supplied bufio.Reader
 		func() {
 			var into []rawPara
-			err := control.Unmarshal(&into, bufio.NewReaderSize(bytes.NewReader(doc), 16))
+			var err error
+			if ring == nil {
+				err = control.Unmarshal(&into, bufio.NewReaderSize(bytes.NewReader(doc), 16))
+			} else {
+				var dec *control.Decoder
+				if dec, err = control.NewDecoder(bufio.NewReaderSize(bytes.NewReader(doc), 16), ring); err == nil {
+					err = dec.Decode(&into)
+				}
+			}
 			ps := []control.Paragraph{}
 			for _, x := range into {
 				ps = append(ps, x.Paragraph)
